@@ -124,6 +124,74 @@ pub fn shim_skip_take(s: &String, a: usize, n: usize) -> (r: String)
 
 //@@ substring
 
+// ---- translate(): the per-character walk ----
+#[verifier::external_body]
+pub fn shim_chars_vec(s: &String) -> (r: Vec<char>)
+    ensures r@ == s@,
+{ s.chars().collect::<Vec<char>>() }
+// s2.chars().position(|v| v == ch): index of the FIRST occurrence
+#[verifier::external_body]
+pub fn shim_char_position(s: &String, ch: char) -> (r: Option<usize>)
+    ensures match r {
+        Some(i) => i < s@.len() && s@[i as int] == ch && (forall|j: int| 0 <= j < i ==> s@[j] != ch),
+        None => forall|j: int| 0 <= j < s@.len() ==> s@[j] != ch,
+    },
+{ s.chars().position(|v| v == ch) }
+// s3.chars().nth(index)
+#[verifier::external_body]
+pub fn shim_char_nth(s: &String, index: usize) -> (r: Option<char>)
+    ensures r == (if index < s@.len() { Some(s@[index as int]) } else { None::<char> }),
+{ s.chars().nth(index) }
+#[verifier::external_body]
+pub fn shim_string_push(s: &mut String, ch: char)
+    ensures final(s)@ == old(s)@.push(ch),
+{ s.push(ch) }
+#[verifier::external_body]
+pub fn shim_string_new() -> (r: String)
+    ensures r@ == Seq::<char>::empty(),
+{ String::new() }
+
+// XPath 1.0 4.2 translate(): a character of s1 that occurs in s2 is replaced by the character at the position of its
+// FIRST occurrence in s3, or removed when s3 has no character there; every other character is copied
+pub open spec fn first_index(s: Seq<char>, c: char) -> int
+    decreases s.len(),
+{
+    if s.len() == 0 { -1 } else if s[0] == c { 0 } else {
+        let r = first_index(s.subrange(1, s.len() as int), c);
+        if r < 0 { -1 } else { r + 1 }
+    }
+}
+pub open spec fn translate_char(c: char, s2: Seq<char>, s3: Seq<char>) -> Seq<char> {
+    let i = first_index(s2, c);
+    if i < 0 { seq![c] } else if i < s3.len() { seq![s3[i]] } else { Seq::<char>::empty() }
+}
+pub open spec fn translate_spec(s1: Seq<char>, s2: Seq<char>, s3: Seq<char>) -> Seq<char>
+    decreases s1.len(),
+{
+    if s1.len() == 0 { s1 } else { translate_spec(s1.drop_last(), s2, s3) + translate_char(s1.last(), s2, s3) }
+}
+pub proof fn lemma_first_index(s: Seq<char>, c: char)
+    ensures
+        -1 <= first_index(s, c) < s.len(),
+        first_index(s, c) >= 0 ==> s[first_index(s, c)] == c && (forall|j: int| 0 <= j < first_index(s, c) ==> s[j] != c),
+        first_index(s, c) < 0 ==> (forall|j: int| 0 <= j < s.len() ==> s[j] != c),
+    decreases s.len(),
+{
+    if s.len() > 0 && s[0] != c {
+        let t = s.subrange(1, s.len() as int);
+        lemma_first_index(t, c);
+        let r = first_index(t, c);
+        if r >= 0 {
+            assert(t[r] == s[r + 1]);
+            assert forall|j: int| 0 <= j < r + 1 implies s[j] != c by { if j > 0 { assert(t[j - 1] == s[j]); } }
+        } else {
+            assert forall|j: int| 0 <= j < s.len() implies s[j] != c by { if j > 0 { assert(t[j - 1] == s[j]); } }
+        }
+    }
+}
+
+//@@ translate
+
 } // verus!
 fn main() {}
 '''
@@ -162,6 +230,20 @@ def build():
                  ('C09:selects_the_characters_of_the_range_with_length',
                   'args@.len() == 3 && r is Ok ==> r->Ok_0 is Text && ({ let s = string_of(args@[0]); let (lo, hi) = spec_range(s.len(), number_of(args@[1]), Some(number_of(args@[2]))); r->Ok_0->Text_0@ == s.subrange(lo, hi) })')],
         requires=[('arity_checked_by_the_function_table', '2 <= args@.len() <= 3')])
+    fns['translate'] = Fn(
+        FF, None, 'translate', props=['C09'], safety_props=['C06'], label='xpath::func::translate', sig_rules=[R_UNUSED],
+        requires=[('arity_checked_by_the_function_table', 'args@.len() == 3')],
+        rules=[R_TOSTRING,
+               Rule('R40', r'let mut r = String::new\(\);', 'let mut r = shim_string_new();', 'String::new -> shim'),
+               Rule('R40', r'for ch in s1\.chars\(\) \{', 'for ch in __it: shim_chars_vec(&s1) /*@loop*/ {', 'for over str::chars() -> for over the shim-built Vec<char>'),
+               Rule('R40', r's2\.chars\(\)\.position\(\|v\| v == ch\)', 'shim_char_position(&s2, ch)', 'chars().position(closure) -> shim: first index'),
+               Rule('R40', r's3\.chars\(\)\.nth\(index\)', 'shim_char_nth(&s3, index)', 'chars().nth -> shim'),
+               Rule('R40', r'\br\.push\(ch\)', 'shim_string_push(&mut r, ch)', 'String::push -> shim')],
+        loops={0: dict(invariant=[('C09:prefix_translated', '__it.seq() == s1@ && r@ == translate_spec(s1@.take(__it.index@), s2@, s3@)')])},
+        inject=[(r'shim_char_position\(&s2, ch\)', 'proof { lemma_first_index(s2@, ch); assert(s1@.take(__it.index@ + 1).drop_last() =~= s1@.take(__it.index@)); }', 'before'),
+                (r'^\s*Ok\(model::Value::Text\(r\)\)', 'proof { assert(s1@.take(s1@.len() as int) =~= s1@); }', 'before')],
+        ensures=[('C09:translate_maps_by_first_occurrence_and_removes_unmatched',
+                  'r is Ok ==> r->Ok_0 is Text && r->Ok_0->Text_0@ == translate_spec(string_of(args@[0]), string_of(args@[1]), string_of(args@[2]))')])
     return ENV, fns
 
 
